@@ -603,6 +603,9 @@ func RunCase(t *testing.T, c *Case, trace bool) *RunResult {
 		if r.open && res.Fatal == "" {
 			r.closeDB()
 		}
+		if res.NTables == 0 {
+			res.NTables, res.MaxLevel = countTables(dir)
+		}
 	})
 	res.Sim = s
 	if s.Abort != "" && res.Fatal == "" {
